@@ -522,7 +522,7 @@ func genCase(t *rapid.T) Case {
 
 func TestFund(t *testing.T) {
 	pbt.Run(t, pbt.Sub[Case]{
-		Name: "fund", Quick: 200000, Thorough: 2000000,
+		Name: "fund", Quick: 200000, Thorough: 12000000,
 		Gen:   genCase,
 		Check: check,
 	})
